@@ -5,17 +5,20 @@
    with (2), runs the model reader on (2) and compares with (3).  Foreign / legacy cases carry a
    file produced by the harness's own h5py writer and the read-back state.
 
-   Payload values are exact: a real number is a sign bit plus a rational (so -0.0 differs from
-   0.0), or an infinity, or NaN; a cell value is a (re, im) pair. *)
+   Payload values are exact: a real number is a sign bit plus a dyadic rational (so -0.0 differs
+   from 0.0), or an infinity, or NaN; a cell value is a (re, im) pair. *)
 From DF Require Export Prelude Region Mesh Hdf5.
 Open Scope Q_scope.
 
-Inductive num := Fin (neg : bool) (q : Q) | Inf (neg : bool) | NaN.
+(* a finite real is sign bit + canonical dyadic m * 2^e (m odd, or m = e = 0); written this way
+   because binary64 values have up to 1074-bit denominators and Coq parses huge decimal literals
+   slowly.  Two canonical dyadics are equal iff their (m, e) are. *)
+Inductive num := Fin (neg : bool) (m e : Z) | Inf (neg : bool) | NaN.
 Notation cval := (num * num)%type.
 
 Definition num_eqb (a b : num) : bool :=
   match a, b with
-  | Fin s x, Fin t y => Bool.eqb s t && Qeq_bool x y
+  | Fin s m e, Fin t m' e' => Bool.eqb s t && (m =? m')%Z && (e =? e')%Z
   | Inf s, Inf t => Bool.eqb s t
   | NaN, NaN => true
   | _, _ => false
@@ -23,14 +26,24 @@ Definition num_eqb (a b : num) : bool :=
 Definition cval_eqb (a b : cval) : bool := num_eqb (fst a) (fst b) && num_eqb (snd a) (snd b).
 
 (* short constructors used by the generated case files *)
-Definition rp (q : Q) : cval := (Fin false q, Fin false 0).     (* real, sign bit clear *)
-Definition rn (q : Q) : cval := (Fin true q, Fin false 0).      (* real, sign bit set *)
-Definition rv (a : num) : cval := (a, Fin false 0).
+Definition rp (m e : Z) : cval := (Fin false m e, Fin false 0 0)%Z.     (* real, sign bit clear *)
+Definition rn (m e : Z) : cval := (Fin true m e, Fin false 0 0)%Z.      (* real, sign bit set *)
+Definition rv (a : num) : cval := (a, Fin false 0%Z 0%Z).
 
-(* integer payload -> float64 (Field.__init__ on the way back) *)
+(* canonical dyadic of a non-negative integer *)
+Fixpoint pnorm (p : positive) : positive * Z :=
+  match p with
+  | xO p' => let r := pnorm p' in (fst r, (snd r + 1)%Z)
+  | _ => (p, 0%Z)
+  end.
+Definition znorm (z : Z) : Z * Z :=
+  match z with Zpos p => let r := pnorm p in (Zpos (fst r), snd r) | _ => (0, 0)%Z end.
+
+(* integer payload -> float64 (Field.__init__ on the way back); sign handled by the flag *)
 Definition num_conv (a : num) : num :=
   match a with
-  | Fin s q => Fin s (inject_Z (round_f64 (Qnum q)))      (* integer payloads have denominator 1 *)
+  | Fin s m e => if (e <? 0)%Z then a
+                 else let r := znorm (round_f64 (m * 2 ^ e)) in Fin s (fst r) (snd r)
   | _ => a
   end.
 Definition cval_conv (c : cval) : cval := (num_conv (fst c), snd c).
